@@ -459,7 +459,10 @@ Definition check_C30_code (i0 : N) (slack : option N) (evs : list event) : nat :
   | MErr code => code
   end.
 Definition check_C30 (i0 : N) (slack : option N) (evs : list event) : bool :=
-  Nat.eqb (check_C30_code i0 slack evs) 0.
+  match mon_run (mkCfg i0 (count_notifying evs) slack) evs with
+  | MOk _ => true
+  | MErr _ => false
+  end.
 
 (* The history of a run of the transition system. *)
 Definition history (s : state) : list event := rev (log s).
